@@ -15,9 +15,16 @@
 (*   possible  every recorded (recipe, bits) row has NON-ZERO exact        *)
 (*             probability under Shadows.tla (recipe 0/1/2 = X/Y/Z, bit 0  *)
 (*             = eigenvalue +1): decided exactly in the ring.              *)
+(*   estimator the value v returned by qp.shadow_expval(P) on the same     *)
+(*             circuit (recorded as the integer m = v T / 3^|supp P|,      *)
+(*             sevint = that number was an integer) is FEASIBLE: T v is a  *)
+(*             sum of T per-snapshot estimates tr(Snapshot(r,b) P) over    *)
+(*             rows (r,b) of non-zero exact probability.  For a word that  *)
+(*             stabilises the state the only possible estimates are 0 and  *)
+(*             <P> 3^|supp|, so a wrong sign / wrong qubit is rejected.    *)
 (* It also emits, per word, the exact sum over the recorded rows of the    *)
-(* per-snapshot estimate tr(Snapshot P) (the harness divides by T and      *)
-(* compares with qp.shadow_expval run with the same seeds).                *)
+(* per-snapshot estimate (the harness divides by T and compares with       *)
+(* qp.shadow_expval run with the same seeds: mechanism, reported as drift).*)
 (***************************************************************************)
 EXTENDS Shadows, Json, IOUtils
 CONSTANT NCASES
@@ -41,12 +48,28 @@ FirstImpossible == CHOOSE q \in 1..Len(Tr.samples) : SIsZero(CondProb(tpsi, Tr.w
 EstSum(word) == LET S[q \in 0..Len(Tr.samples)] == IF q = 0 THEN SZero ELSE
                       SAdd(S[q-1], SScale(Tr.samples[q].c, Estimate(Tr.samples[q].r, Tr.samples[q].b, word)))
                 IN S[Len(Tr.samples)]
+\* every (recipe, bits) row over the measured columns with non-zero exact probability
+PossRows == UNION { Bind(RotateOn(tpsi, Tr.ws, rr, 1, Tr.n), LAMBDA phi :
+                        {<<rr, bb>> : bb \in {b2 \in [1..NMeas -> 0..1] : ~SIsZero(ProbOn(phi, Tr.ws, b2, Tr.n))}})
+                    : rr \in [1..NMeas -> 0..2] }
+EstInt(rr, bb, word) == Bind(Estimate(rr, bb, word), LAMBDA es : IF es.k = 0 /\ es.c = Int2C(es.c[1]) THEN es.c[1] ELSE Assert(FALSE, "estimate is not an integer"))
+PossEst(rows, word) == {EstInt(rb[1], rb[2], word) : rb \in rows}
+Supp(word) == LET S[q \in 0..Len(word)] == IF q = 0 THEN 0 ELSE S[q-1] + (IF word[q] = 0 THEN 0 ELSE 1) IN S[Len(word)]
+\* T v = (#plus - #minus) 3^s with #plus + #minus <= T, each kind only if possible, all T rows non-zero unless 0 is possible
+FeasibleVal(vals, word, mm) == LET s3 == 3^Supp(word) IN
+   \E np \in 0..Tr.T : \E nm \in 0..(Tr.T - np) :
+      /\ np - nm = mm /\ (np > 0 => s3 \in vals) /\ (nm > 0 => (0 - s3) \in vals) /\ (np + nm < Tr.T => 0 \in vals)
+Infeasible(rows) == {q \in 1..Len(Tr.words) :
+                        ~(Tr.sevint[q] /\ Bind(PossEst(rows, Tr.words[q]), LAMBDA vals : FeasibleVal(vals, Tr.words[q], Tr.sev[q])))}
+Verdict == IF ~Form THEN "form" ELSE IF ~Possible THEN "impossible_outcome"
+           ELSE IF Tr.hassev /\ Bind(PossRows, LAMBDA rows : Infeasible(rows) # {}) THEN "shadow_expval_infeasible" ELSE "ok"
 Judge == /\ tpos = Len(Tr.ops) + 1
-         /\ LET verdict == IF ~Form THEN "form" ELSE IF ~Possible THEN "impossible_outcome" ELSE "ok" IN
+         /\ Bind(Verdict, LAMBDA verdict :
             /\ PrintT(<<"V", tid, verdict>>)
             /\ PrintT(ToJson([tid |-> tid, verdict |-> verdict,
                               bad |-> IF verdict = "impossible_outcome" THEN FirstImpossible ELSE 0,
-                              sums |-> IF verdict = "ok" THEN [q \in 1..Len(Tr.words) |-> EstSum(Tr.words[q])] ELSE <<>>]))
+                              inf |-> IF verdict = "shadow_expval_infeasible" THEN Bind(PossRows, LAMBDA rows : Infeasible(rows)) ELSE {},
+                              sums |-> IF verdict \in {"ok", "shadow_expval_infeasible"} THEN [q \in 1..Len(Tr.words) |-> EstSum(Tr.words[q])] ELSE <<>>])))
          /\ tpos' = tpos + 1 /\ tpsi' = <<>> /\ UNCHANGED tid
 Next == Step \/ Judge
 =============================================================================
